@@ -1115,40 +1115,53 @@ def make_check_expr(
 
                     # If this metahint is ignorable...
                     if hint_child_sane is HINT_SANE_IGNORABLE:
-                        # Expression yielding the value of the current pith,
-                        # defined as either...
-                        hint_curr_expr = (
-                            hint_tree.hint_curr.pith_expr
-                            # If this metahint is annotated by only one beartype
-                            # validator, the most efficient expression yielding
-                            # the value of the current pith is simply the full
+                        # If either...
+                        if (
+                            # The expression yielding the current pith is
+                            # already a simple local variable (e.g., the root
+                            # pith) *OR*...
+                            hint_tree.pith_curr_assign_expr is
+                            hint_tree.hint_curr.pith_expr or
+                            # This metahint is annotated by only one beartype
+                            # validator whose code embeds the current pith at
+                            # most once...
+                            (
+                                len(hints_child) == 1 and
+                                isinstance(hints_child[0], BeartypeValidator) and
+                                hints_child[0]._is_valid_code.count('{obj}') <= 1
+                            )
+                        ):
+                            # Then the most efficient expression yielding the
+                            # value of the current pith is simply the full
                             # Python expression *WITHOUT* assigning that value
-                            # to a reusable local variable in an assignment
-                            # expression. *NO* assignment expression is needed
-                            # in this case.
-                            #
-                            # Why? Because beartype validators are *NEVER*
-                            # recursed into. Each beartype validator is
-                            # guaranteed to be the leaf of a type-checking
-                            # subtree, guaranteeing this pith to be evaluated
-                            # only once.
-                            if len(hints_child) == 1 else
-                            # Else, this metahint is annotated by two or more
-                            # beartype validators. In this case, the most
-                            # efficient expression yielding the value of the
-                            # current pith is the assignment expression
-                            # assigning this value to a reusable local variable.
-                            #
-                            # Note that this expression *MUST* be parenthesized.
-                            # Validator code embeds this expression as an
-                            # arbitrary operand (e.g., "{obj} == ..." for
-                            # "IsEqual[...]"). Since the unparenthesized
-                            # assignment operator ":=" binds less tightly than
-                            # all other operators, omitting these parens would
-                            # erroneously assign this local the result of that
-                            # operation rather than this pith.
-                            f'({hint_tree.pith_curr_assign_expr})'
-                        )
+                            # to a reusable local variable. Beartype validators
+                            # are *NEVER* recursed into, guaranteeing this pith
+                            # to be evaluated only once.
+                            hint_curr_expr = hint_tree.hint_curr.pith_expr
+                        # Else, the expression yielding the current pith is
+                        # non-trivial (e.g., an item randomly indexed from a
+                        # parent container) *AND* would be embedded two or more
+                        # times, by either two or more validators *OR* a single
+                        # compound validator (e.g., "Is[...] & Is[...]"). In
+                        # this case, evaluate this expression exactly once by
+                        # assigning this pith to a reusable local variable in a
+                        # tautological test preceding all validator code, which
+                        # then refers to this variable only. Embedding the
+                        # assignment expression itself into validator code
+                        # would instead re-evaluate this expression once per
+                        # embedding (e.g., re-reading the same container item)
+                        # and, if unparenthesized, bind the wrong value.
+                        else:
+                            hint_curr_expr = hint_tree.hint_curr.pith_var_name
+                            hint_tree.func_curr_code += (
+                                CODE_PEP593_VALIDATOR_IS_format(
+                                    indent_curr=hint_tree.indent_curr,
+                                    hint_child_expr=(
+                                        f'({hint_tree.pith_curr_assign_expr}) '
+                                        f'is {hint_curr_expr}'
+                                    ),
+                                )
+                            )
                     # Else, this metahint is unignorable. In this case...
                     else:
                         # Python expression yielding the value of the current
